@@ -1137,13 +1137,15 @@ func (w *srvWorld) setup() {
 	if w.cfg.BigK && g.Chance("bigk", 0.12) {
 		// a large limit (always set explicitly: what an unset option defaults to
 		// is documented nowhere in the properties)
-		switch g.Int("bigkkind", 3) {
+		switch g.Int("bigkkind", 4) {
 		case 0:
-			w.K = 8 + g.Int("bigkval", 9)
+			w.K = 5 + g.Int("bigkval", 12)
 		case 1:
 			w.K = 24
 		case 2:
 			w.K = 16
+		case 3:
+			w.K = 33 + g.Int("hugek", 70) // beyond any "reasonable" cap
 		}
 		w.optK = w.K
 		w.bigK = true
@@ -1424,8 +1426,8 @@ func (w *srvWorld) progress() string { return w.progressOf(false) }
 // request is waiting"); whether a message may still be undispatched is C03's.
 func (w *srvWorld) progressOf(dispatchedOnly bool) string {
 	w.noteArrivals()
-	if w.stopSeq >= 0 {
-		return ""
+	if w.stopSeq >= 0 || w.baseCancelSeq >= 0 {
+		return "" // (once the base context has ended every request is cancelled before it starts)
 	}
 	lastStarted := -1
 	msgStarted := map[int]bool{}
